@@ -73,3 +73,40 @@ package types
 
 //@ func (grant AccessMode) BetterEqual(want AccessMode) (res bool)
 //@   ensures [C05] def: res <==> (grant & want & ModeBitmask) == want
+
+// ---------------------------------------------------------------------------------------------
+// C04: ranges of message ids. A Range is [Low, Hi); Hi == 0 (or Hi == Low) means the single id Low.
+// ---------------------------------------------------------------------------------------------
+
+//@ spec func upper(r Range) int { return (r.Hi == 0 || r.Hi == r.Low) ? r.Low + 1 : r.Hi }
+//@ spec func covers(r Range, id int) bool { return r.Low <= id && id < upper(r) }
+//@ spec func wfRange(r Range) bool { return r.Low >= 0 && (r.Hi == 0 || r.Hi > r.Low) }
+// id is covered by one of the first n ranges of rs
+//@ spec func covered(rs RangeSorter, n int, id int) bool { return exists j int :: 0 <= j && j < n && covers(rs[j], id) }
+// the order established by sort.Sort with RangeSorter.Less: Low ascending, for equal Low the wider range first
+//@ spec func sortedRanges(rs RangeSorter) bool {
+//@   return forall a int, b int :: 0 <= a && a < b && b < len(rs) ==>
+//@            rs[a].Low <= rs[b].Low && (rs[a].Low == rs[b].Low ==> upper(rs[a]) >= upper(rs[b])) }
+
+//@ func (rs RangeSorter) Less(i int, j int) (res bool)
+//@   requires [C04] inrange: 0 <= i && i < len(rs) && 0 <= j && j < len(rs)
+//@   ensures [C04] def: res <==> (rs[i].Low < rs[j].Low || (rs[i].Low == rs[j].Low && rs[i].Hi >= rs[j].Hi))
+//@   safe
+
+//@ func (rs RangeSorter) Normalize() (res RangeSorter)
+//@   requires [C04] wf:     forall k int :: 0 <= k && k < len(rs) ==> wfRange(rs[k])
+//@   requires [C04] sorted: sortedRanges(rs)
+//@   modifies rs[*]
+//@   ensures [C04] union_preserved: forall id int :: covered(res, len(res), id) <==> old(covered(rs, len(rs), id))
+//@   ensures [C04] disjoint: forall k int :: 0 <= k && k + 1 < len(res) ==> upper(res[k]) <= res[k+1].Low
+//@   ensures [C04] wf_out:   forall k int :: 0 <= k && k < len(res) ==> wfRange(res[k])
+//@   ensures [C04] nonempty: len(rs) > 0 ==> len(res) > 0
+//@   ensures [C04] shorter:  len(res) <= len(rs)
+//@   safe
+//@   loop 1
+//@     invariant bounds:  ll == len(rs) && 1 <= i && i <= ll && 0 <= prev && prev < i
+//@     invariant wfpre:   forall k int :: 0 <= k && k <= prev ==> wfRange(rs[k])
+//@     invariant suffix:  forall k int :: i <= k && k < ll ==> rs[k].Low == old(rs[k].Low) && rs[k].Hi == old(rs[k].Hi)
+//@     invariant order:   forall k int :: i <= k && k < ll ==> rs[prev].Low <= rs[k].Low
+//@     invariant apart:   forall k int :: 0 <= k && k < prev ==> upper(rs[k]) < rs[k+1].Low
+//@     invariant cover:   forall id int :: covered(rs, prev + 1, id) <==> old(covered(rs, i, id))
